@@ -6,7 +6,7 @@
    theorems state what happens whenever the callback completes; the Examples are the failing histories. *)
 From Coq Require Import String List NArith Lia Bool.
 From Ax Require Import Lib.Bytes Lib.Mvx Lib.SolAbi Lib.Keccak Model.Check Model.Env Model.Gateway Model.TokenManager Model.Its
-     Proofs.GatewayMsgs Proofs.TMFacts Proofs.ItsFacts Proofs.ItsWorld Proofs.ItsMore Proofs.ItsOutbound Proofs.ItsCustody Proofs.ItsIds Gen.Generated.
+     Proofs.GatewayMsgs Proofs.TMFacts Proofs.ItsFacts Proofs.ItsWorld Proofs.ItsMore Proofs.ItsOutbound Proofs.ItsCustody Proofs.ItsIds Proofs.ItsCustodyRun Gen.Generated.
 Import ListNotations.
 Open Scope N_scope.
 
@@ -89,6 +89,16 @@ Section C17.
     intros w0 ops c id res p E w Es ng nt F PS.
     exact (props_custody H verify S x w c id res p Es ng nt (reachable_ids_distinct H verify w0 ops E) F PS).
   Qed.
+  (* whole histories (Proofs/ItsCustodyRun.v): along any history whose steps are synchronous endpoint calls, gateway
+     operations, deliveries and callbacks that succeed, the equation telescopes; hence the property as stated: an
+     operation that has run to completion (no pending work before, none after) without a failing callback leaves the
+     service with exactly what it held before *)
+  Theorem c17_history_custody : forall ops w, IdInv w -> GoodRun H verify S w ops ->
+    sb S x (irun H verify w ops) + HP x w = sb S x w + HP x (irun H verify w ops).
+  Proof. exact (history_custody H verify S x). Qed.
+  Theorem c17_completed_history_keeps_nothing : forall ops w, iw_pend w = [] -> GoodRun H verify S w ops ->
+    iw_pend (irun H verify w ops) = [] -> sb S x (irun H verify w ops) = sb S x w.
+  Proof. exact (completed_history_keeps_nothing H verify S x). Qed.
 End C17.
 Print Assumptions c17_metadata_callback.
 Print Assumptions c17_remote_callback.
@@ -96,6 +106,7 @@ Print Assumptions c17_sync_custody.
 Print Assumptions c17_callback_custody.
 Print Assumptions c17_props_custody.
 Print Assumptions c17_props_custody_reachable.
+Print Assumptions c17_completed_history_keeps_nothing.
 
 (* non-vacuity of the custody equation: registerTokenMetadata with 777 EGLD in the world of Proofs/ItsMore.v:
    the premises hold, the service's EGLD balance grows by 777 and the new lookup holds exactly 777 *)
@@ -129,6 +140,19 @@ Example c17_error_refunds :
   let r := istep keccak256 Findings.vf (Findings.w17r true []) (IProps (Findings.cx (Findings.A 99) no_value) 0 None) in
   io_ok (snd r) = true /\ bal (iw_led (fst r)) Findings.self EGLD = 0 /\ bal (iw_led (fst r)) Findings.user EGLD = 333.
 Proof. exact Findings.c17_error_refunds. Qed.
+(* a completed history: registerTokenMetadata with 777 EGLD, then the lookup callback succeeds with the hub's address set:
+   nothing pending, the service holds nothing, the gas service holds the 777 *)
+Example c17_completed_history_nonvacuous :
+  let w0 := {| iw_gw := Findings.gw0 []; iw_its := Findings.its0 [(str "ethereum", str "0xITS"); (str "axelar", str "axelar1hub")] false;
+               iw_tms := [(Findings.tma, Findings.tm0 0)]; iw_led := [((Findings.user, EGLD), 1000)]; iw_pend := []; iw_next := 0 |} in
+  let ops := [IRegisterMetadata (Findings.cx Findings.user {| cv_egld := 777; cv_esdt := [] |}) Findings.tok;
+              IProps (Findings.cx (Findings.A 99) no_value) 0 Findings.good_props] in
+  let w := irun keccak256 Findings.vf w0 ops in
+  iw_pend w = [] /\ sb Findings.self EGLD w = 0 /\ bal (iw_led w) Findings.gasa EGLD = 777 /\ bal (iw_led w) Findings.user EGLD = 223 /\
+  HP EGLD (fst (istep keccak256 Findings.vf w0 (hd (IGateway (GTransferOp {| c_caller := []; c_owner := []; c_now := 0 |} [])) ops))) = 777.
+Proof. vm_compute. repeat split; reflexivity. Qed.
+
 Check c17_metadata_callback.
+Check c17_completed_history_keeps_nothing.
 Check c17_sync_custody.
 Check c17_props_custody.
